@@ -10,12 +10,12 @@ from vf import ch, programs as P
 from vf.driver import Harness
 
 PROPERTY = "C05"
-KINDS = [P.RET, P.FAIL, P.ERROR, P.SKIP, P.XFAIL, P.MULTI, P.UXS]
+KINDS = [P.RET, P.FAIL, P.ERROR, P.SKIP, P.XFAIL, P.MULTI, P.UXS, P.NMULTI]
 UNAMES = ["x", "traceback", "traceback-1", "Failed expectation", "é"]
 BIN = ContentType("application", "octet-stream")
 # how many traceback details / handler calls a raised kind accounts for
-N_TB = {P.RET: 0, P.FAIL: 1, P.ERROR: 1, P.SKIP: 0, P.XFAIL: 1, P.MULTI: 2, P.UXS: 0}
-N_EXC = {P.RET: 0, P.FAIL: 1, P.ERROR: 1, P.SKIP: 1, P.XFAIL: 1, P.MULTI: 2, P.UXS: 1}
+N_TB = {P.RET: 0, P.FAIL: 1, P.ERROR: 1, P.SKIP: 0, P.XFAIL: 1, P.MULTI: 2, P.UXS: 0, P.NMULTI: 3}
+N_EXC = {P.RET: 0, P.FAIL: 1, P.ERROR: 1, P.SKIP: 1, P.XFAIL: 1, P.MULTI: 2, P.UXS: 1, P.NMULTI: 3}
 
 
 class _DetailMatcher:
@@ -45,11 +45,14 @@ def run_program(su, body, td, c1, u0, u1, mm, fx, nh, pay0, pay1):
     payload = {}
     for k, n in enumerate(user_names):
         payload[n] = [pay0, pay1] if k == 0 else [pay1]
-    fx_detail_name = {0: None, 1: "fx", 2: "x", 3: "fx"}[fx]
+    fx_detail_name = {0: None, 1: "fx", 2: "x", 3: "fx", 4: "x"}[fx]
 
     class Fx(fixtures.Fixture):
         def _setUp(self):
             self.addDetail(fx_detail_name, text_content("fixture-detail"))
+            if fx == 4:
+                # a second detail whose name is what the first one would be renamed to on a collision
+                self.addDetail(fx_detail_name + "-1", text_content("fixture-detail-2"))
             if fx == 3:
                 raise RuntimeError("fixture setUp failed")
 
@@ -118,6 +121,8 @@ def run_program(su, body, td, c1, u0, u1, mm, fx, nh, pay0, pay1):
         texts = [c.as_text() for c in details.values() if c.content_type.type == "text" and c.content_type.subtype == "plain"]
         if fx and texts.count("fixture-detail") < 1:
             problems.append("fixture detail missing (keys %r)" % (sorted(details),))
+        if fx == 4 and texts.count("fixture-detail-2") < 1:
+            problems.append("second fixture detail missing or overwritten (keys %r)" % (sorted(details),))
         if mm in (1, 2) and body_aborted_by != "fixture":
             for n in (["x", "traceback"] if mm == 1 else ["x", "é"]):
                 if "mismatch-%s" % n not in texts:
@@ -159,8 +164,8 @@ def run_program(su, body, td, c1, u0, u1, mm, fx, nh, pay0, pay1):
 def h_details(su: int, body: int, td: int, c1: int, u0: int, u1: int, mm: int, fx: int, nh: int,
               pay0: bytes, pay1: bytes, mf: int, mode: int) -> bool:
     """
-    pre: 0 <= su < 7 and 0 <= body < 7 and 0 <= td < 7 and 0 <= c1 < 7 and 0 <= u0 < 6 and 0 <= u1 < 6
-    pre: 0 <= mm < 3 and 0 <= fx < 4 and 0 <= nh < 3 and len(pay0) <= 2 and len(pay1) <= 1 and 0 <= mf < 5
+    pre: 0 <= su < 8 and 0 <= body < 8 and 0 <= td < 8 and 0 <= c1 < 8 and 0 <= u0 < 6 and 0 <= u1 < 6
+    pre: 0 <= mm < 3 and 0 <= fx < 5 and 0 <= nh < 3 and len(pay0) <= 2 and len(pay1) <= 1 and 0 <= mf < 5
     pre: 0 <= mode < 2
     post: _
     """
@@ -172,7 +177,7 @@ def h_details(su: int, body: int, td: int, c1: int, u0: int, u1: int, mm: int, f
             v["su"] = v["td"] = v["c1"] = 0
             v["body"] = ch.sel("body", body, len(KINDS))
             v["u0"], v["u1"] = ch.sel("u0", u0, 6), ch.sel("u1", u1, 6)
-            v["mm"], v["fx"] = ch.sel("mm", mm, 3), ch.sel("fx", fx, 4)
+            v["mm"], v["fx"] = ch.sel("mm", mm, 3), ch.sel("fx", fx, 5)
             v["nh"] = 0
             p0, p1 = pay0, pay1
         else:
@@ -216,7 +221,7 @@ def h_details(su: int, body: int, td: int, c1: int, u0: int, u1: int, mm: int, f
 def _shards(tier):
     out = [({"mode": 0, "body": b, "mm": m}, 1800) for b in range(len(KINDS)) for m in range(3)]
     mf = 2 if tier == "quick" else 3
-    out += [({"mode": 1, "mf": mf, "su": s}, 900) for s in range(1, 7)]
+    out += [({"mode": 1, "mf": mf, "su": s}, 900) for s in range(1, len(KINDS))]
     out += [({"mode": 1, "mf": mf, "su": 0, "mm": m, "nh": h}, 1800) for m in range(3) for h in range(3)]
     return out
 
@@ -233,18 +238,18 @@ def _describe(su, body, td, c1, u0, u1, mm, fx, nh, pay0, pay1, mf, mode):
     o["program"] = dict(setUp=P.KIND_NAMES[KINDS[su]], body=P.KIND_NAMES[KINDS[body]], tearDown=P.KIND_NAMES[KINDS[td]],
                         cleanup=P.KIND_NAMES[KINDS[c1]], user_details=[UNAMES[u] for u in (u0, u1) if u < 5],
                         mismatch=["none", "expectThat", "assertThat"][mm],
-                        fixture=["none", "detail fx", "detail x", "setUp fails"][fx], handlers=nh)
+                        fixture=["none", "detail fx", "detail x", "setUp fails", "details x and x-1"][fx], handlers=nh)
     return o
 
 
 HARNESSES = [
     Harness("details", h_details, _shards,
-            bounds={"quick": "two factor harnesses. (names) only the body raises (7 behaviours: return, fail, error, skip, expected failure, "
-                             "MultipleExceptions(fail,error), unexpected success); (accounting) setUp/body/tearDown/one cleanup with at most 2 raising "
+            bounds={"quick": "two factor harnesses. (names) only the body raises (8 behaviours: return, fail, error, skip, expected failure, "
+                             "MultipleExceptions(fail,error), unexpected success, nested MultipleExceptions); (accounting) setUp/body/tearDown/one cleanup with at most 2 raising "
                              "stages, concrete payloads, user detail 'traceback' or none, fixture none or failing. In both the body first attaches 0..2 "
                              "user details named from {x, traceback, traceback-1, 'Failed expectation', e-acute} (binary content, symbolic "
                              "bytes in 1..2 chunks of length <= 2 / <= 1), optionally uses a fixture carrying a detail (own name, colliding "
-                             "name, or failing setUp), optionally expectThat / assertThat with a mismatch carrying two details (colliding "
+                             "name, two details named x and x-1, or failing setUp), optionally expectThat / assertThat with a mismatch carrying two details (colliding "
                              "names), and registers 0..2 addOnException handlers",
                     "thorough": "at most 3 raising stages"},
             rule="non-trivial = something attached or raised", sym=("pay0", "pay1"),
